@@ -8,6 +8,7 @@ TLS, re-registration on the server) actually works — the `e2erec` suite cuts r
 that exhaustion is reported as too-many-retries when every attempt fails.
 -/
 import SeliumModel.Client.KeepAlive
+import SeliumModel.Client.KeepAliveSM
 
 namespace Selium.KeepAlive
 open Selium.Gen.KeepAlive
@@ -223,6 +224,79 @@ example : life true 2 2 (List.replicate 4 [Attempt.ok]) = [.reconnected, .reconn
 example : reconnect 3 [.recoverable, .recoverable, .recoverable, .ok] = (.tooManyRetries, 3) := by decide
 example : reconnect 3 [.recoverable, .fatal, .ok] = (.fatalError, 2) := by decide
 
+/-! ### the pub/sub wrapper at poll level: no lost wake-up, exhaustion is reported
+
+`Client/KeepAliveSM.lean`: one `poll_ready` / `poll_flush` / `poll_next` of `KeepAlive<T>`. Where the wrapper fires the
+task's waker itself is regenerated from `keep_alive/pubsub.rs`. -/
+
+/-- the wrapper wakes itself where it has to (regenerated from the source on every run) -/
+theorem c12_wrapper_wakes_itself : wakesOnExhaustion = true ∧ wakesAfterArmingAttempt = true ∧ wakesOnReconnect = true := by
+  decide
+
+/-- whenever a poll returns Pending, the wrapper fired the waker itself or something it polled holds it — for a
+    wrapper that wakes itself at its three wake sites -/
+theorem poll_wake (c : Cfg) (hA : c.wakeArm = true) (hE : c.wakeExhaust = true) (hS : c.wakeSuccess = true)
+    (s : Status) (inner : InnerAns) (attempt : AttemptAns) (h : (poll c s inner attempt).seen = .pending) :
+    (poll c s inner attempt).woke = true ∨ (poll c s inner attempt).childHolds = true := by
+  cases s with
+  | connected =>
+    cases inner <;> simp [poll] at h ⊢
+    simp only [onDisconnect, hA, hE]
+    split <;> simp
+  | exhausted => simp [poll] at h
+  | disconnected left =>
+    cases attempt <;> simp [poll, hS] at h ⊢
+    cases left <;> simp [onDisconnect, hA, hE]
+
+/-- "instead of hanging": whenever a poll of the wrapper returns Pending, either it fired the task's waker itself or
+    something it polled (the inner stream, the reconnection attempt) answered Pending and holds it — in every status,
+    for every answer of the inner stream and of the attempt, for every budget (wake sites as regenerated). -/
+theorem c12_no_lost_wakeup (max : Nat) (s : Status) (inner : InnerAns) (attempt : AttemptAns)
+    (h : (poll { max := max } s inner attempt).seen = .pending) :
+    (poll { max := max } s inner attempt).woke = true ∨ (poll { max := max } s inner attempt).childHolds = true :=
+  poll_wake { max := max } c12_wrapper_wakes_itself.2.1 c12_wrapper_wakes_itself.1 c12_wrapper_wakes_itself.2.2 s inner attempt h
+
+/-- one more failed attempt while `left` are still in the iterator -/
+theorem drive_disconnected (c : Cfg) (hA : c.wakeArm = true) (hE : c.wakeExhaust = true) (left extra : Nat) :
+    driveUntilValue c (left + 2 + extra) (.disconnected left) =
+      List.replicate (left + 1) .pending ++ [.tooManyRetries] := by
+  induction left generalizing extra with
+  | zero =>
+    have : 0 + 2 + extra = (extra + 1) + 1 := by omega
+    rw [this]
+    simp [driveUntilValue, poll, onDisconnect, hE]
+  | succ n ih =>
+    have : n + 1 + 2 + extra = (n + 2 + extra) + 1 := by omega
+    rw [this, driveUntilValue]
+    simp only [poll, onDisconnect, hA, Bool.true_or, if_true]
+    rw [ih extra]
+    simp [List.replicate_succ]
+
+theorem drive_connected (c : Cfg) (hA : c.wakeArm = true) (hE : c.wakeExhaust = true) (hP : c.perOutage = true) :
+    driveUntilValue c (c.max + 3) .connected = List.replicate (c.max + 1) .pending ++ [.tooManyRetries] := by
+  cases hm : c.max with
+  | zero => simp [driveUntilValue, poll, onDisconnect, hE, hP, hm]
+  | succ n =>
+    have : n + 1 + 3 = (n + 2 + 1) + 1 := by omega
+    rw [this, driveUntilValue]
+    simp only [poll, onDisconnect, hP, hA, hm, if_true, Bool.true_or]
+    rw [drive_disconnected c hA hE n 1]
+    simp [List.replicate_succ]
+
+/-- When every attempt of an outage fails, the stream reports too-many-retries — under an executor that polls only on
+    wake-up, after exactly as many polls as the budget has attempts (plus the one that noticed the loss and the one
+    that reports): it does not hang, whatever the budget, zero included. -/
+theorem c12_exhaustion_is_reported (max : Nat) :
+    driveUntilValue { max := max } (max + 3) .connected = List.replicate (max + 1) .pending ++ [.tooManyRetries] :=
+  drive_connected { max := max } c12_wrapper_wakes_itself.2.1 c12_wrapper_wakes_itself.1 (show pubsubBudgetPerOutage = true by decide)
+
+/-- The defect this guards against, for the record: a wrapper that does not fire the waker when the budget runs out
+    sleeps for good one poll before it would have reported (budget 1: noticed, one failed attempt, asleep). -/
+theorem c12_silent_exhaustion_hangs :
+    driveUntilValue { max := 1, perOutage := true, wakeArm := true, wakeExhaust := false, wakeSuccess := true } 10 .connected
+      = [.pending, .pending] := by
+  decide
+
 end Selium.KeepAlive
 
 #print axioms Selium.KeepAlive.budgets_per_outage
@@ -236,3 +310,10 @@ end Selium.KeepAlive
 #print axioms Selium.KeepAlive.c12_displaced_replier_gives_up
 #print axioms Selium.KeepAlive.c12_replier_cut_gets_full_budget
 #print axioms Selium.KeepAlive.c12_waiting_replier_survives
+#print axioms Selium.KeepAlive.c12_wrapper_wakes_itself
+#print axioms Selium.KeepAlive.poll_wake
+#print axioms Selium.KeepAlive.c12_no_lost_wakeup
+#print axioms Selium.KeepAlive.drive_connected
+#print axioms Selium.KeepAlive.drive_disconnected
+#print axioms Selium.KeepAlive.c12_exhaustion_is_reported
+#print axioms Selium.KeepAlive.c12_silent_exhaustion_hangs
